@@ -454,6 +454,8 @@ def calibration(case):
     for col, want in ctl.items():
         zs["control_" + col] = (d[col][c].mean() - want) / math.sqrt(d[col][c].var(ddof=1) / c.sum())
     for k, z in zs.items():
+        if case.get("share_only") and k != "share":
+            continue      # with a 0.1% group the other estimates rest on a few dozen users
         if not abs(z) < 5:
             fails.append(f"{k}: z = {z:.2f} against the requested value")
     return fails, zs
@@ -514,6 +516,23 @@ def oracle(ctx, deep=False):
             ctx.extra["max_abs_z"] = max(ctx.extra["max_abs_z"], max(abs(z) for z in zs.values()))
         for f in fails:
             ctx.violations.append({"what": "calibration " + f.split(":")[0], "detail": f, "input": case})
+    extreme_ratio_cases(ctx)
+
+
+def extreme_ratio_cases(ctx):
+    """valid but extreme ratios (a 0.1% - 0.4% group on either side): the treatment share is still ratio / (1 + ratio)"""
+    for ratio in (0.001, 0.004, 250, 999):
+        p = dict(rand_params(ctx.rng), ratio=ratio)
+        case = {"kind": "calibration", "params": p, "n_users": ctx.n(200_000, 400_000), "seed": ctx.rng.randint(0, 10**6),
+                "explode": False, "share_only": True}
+        try:
+            fails, zs = calibration(case)
+        except Exception as e:  # noqa: BLE001
+            fails, zs = [f"raised {type(e).__name__}: {e}"], {}
+        ctx.evaluations += 1
+        ctx.count("oracle:calibration:extreme-ratio")
+        for f in fails:
+            ctx.violations.append({"what": "calibration (extreme ratio) " + f.split(":")[0], "detail": f, "input": case})
 
 
 def replay(ctx, rp):
